@@ -68,6 +68,9 @@ def programs(tier: str):
         for limit in BOUNDS[tier]["limits"]:
             for expiration in (None, 2, 5):
                 yield {"variant": variant, "limit": limit, "expiration": expiration, "L": L}
+    for variant in ("sync", "async"):
+        yield {"variant": variant, "limit": 1, "expiration": None, "L": 4, "attrs": True}
+        yield {"variant": variant, "limit": 2, "expiration": 2, "L": 4, "attrs": True}
 
 
 def explore_config(tier: str, program) -> dict:
@@ -117,9 +120,17 @@ def execute(program, ch: Chooser) -> Result:  # noqa: C901, PLR0912, PLR0915
         nest: dict = {"key": None}
         calls: dict = {}
 
+        def decorate(f):
+            if program.get("attrs"):
+                # attributes of the wrapped function named like the cache's internals
+                f._limit = 99
+                f._cached = None
+                f._function = None
+            return cache(limit=limit, expiration=expiration)(f)
+
         if variant == "sync":
 
-            @cache(limit=limit, expiration=expiration)
+            @decorate
             def fn(k):
                 inner = nest["key"]
                 if inner is not None:
@@ -130,7 +141,7 @@ def execute(program, ch: Chooser) -> Result:  # noqa: C901, PLR0912, PLR0915
 
         elif variant == "async":
 
-            @cache(limit=limit, expiration=expiration)
+            @decorate
             async def fn(k):
                 return make(None, k)
 
@@ -148,6 +159,8 @@ def execute(program, ch: Chooser) -> Result:  # noqa: C901, PLR0912, PLR0915
                 async def fn(self, k):
                     return make(self.name, k)
 
+        if variant in ("sync", "async") and program.get("attrs"):
+            pass
         recvs = {}
         if variant in ("msync", "masync"):
             recvs = {"r1": Owner("r1", 1), "r1p": Owner("r1p", 1), "r2": Owner("r2", 2)}
